@@ -15,13 +15,6 @@ Definition needs_escape (c : nat) : bool :=
   (c =? ch_dot) || (c =? ch_lb) || (c =? ch_bs) || (c =? ch_star) || (c =? ch_caret) || (c =? ch_dollar).
 Definition push_literal (c : nat) : list nat := if needs_escape c then [ch_bs; c] else [c].
 
-(* position of the first element of [s] that is [a] or [b] *)
-Fixpoint find2 (a b : nat) (s : list nat) : option nat :=
-  match s with
-  | [] => None
-  | c :: s' => if (c =? a) || (c =? b) then Some 0 else option_map S (find2 a b s')
-  end.
-
 (* ---- Oniguruma's reading of a bracket expression (posix-basic syntax; backslash is literal) ---- *)
 Inductive bitem := BChar (c : nat) | BRange (lo hi : nat) | BClass (k : nat).
 (* class names: 0 alpha 1 digit 2 alnum 3 upper 4 lower 5 space 6 blank 7 punct 8 print 9 graph 10 cntrl 11 xdigit 12 word 13 ascii *)
@@ -114,27 +107,45 @@ Definition cc_parse (s : list nat) : cc_res :=
   | [] => CCErr
   end.
 
-Definition punct_name : list nat := [112; 117; 110; 99; 116].                                   (* punct *)
 Definition punct_list : list nat := [33; 45; 47; 58; 45; 64; 91; 45; 96; 123; 45; 126].         (* !-/:-@[-`{-~ *)
+Definition digit_list : list nat := [48; 45; 57].                                               (* 0-9 *)
 
-(* ---- extract_bracket_expr: the text of the bracket expression ("[" included) and what follows ---- *)
+(* the text before the first occurrence of [d] "]" and what follows it *)
+Fixpoint find_close (d : nat) (s : list nat) (acc : list nat) : option (list nat * list nat) :=
+  match s with
+  | a :: ((b :: s') as t) => if (a =? d) && (b =? ch_rb) then Some (acc, s') else find_close d t (acc ++ [a])
+  | _ => None
+  end.
+
+(* ---- extract_bracket_expr: the text of the bracket expression ("[" included) and what follows ----
+   "[:" must be closed by ":]" and hold one of the twelve POSIX class names ([:punct:] and [:digit:] are spelled out: the
+   engine's are Unicode categories); "[." and "[=" must be closed by ".]" and "=]" and are passed on as they are. *)
 Fixpoint scan_bracket (fuel : nat) (s : list nat) (expr : list nat) : option (list nat * list nat) :=
   match fuel with 0 => None | S f =>
   match s with
-  | [] => Some (expr, [])                        (* input exhausted: Oniguruma decides (it rejects an unclosed class) *)
+  | [] => None                                   (* never closed *)
   | c :: s1 =>
       let expr1 := expr ++ [c] in
       if c =? ch_rb then Some (expr1, s1)
       else if c =? ch_lb then
         match s1 with
         | d :: s2 =>
-            if (d =? ch_dot) || (d =? ch_eq) || (d =? ch_colon) then
-              match find2 d ch_rb s2 with
+            if d =? ch_colon then
+              match take_class s2 [] with
               | None => None
-              | Some i => if length s2 <? i + 2 then None
-                          else if (d =? ch_colon) && list_eqb (firstn i s2) punct_name
-                          then scan_bracket f (skipn (i + 2) s2) (expr ++ punct_list)   (* [:punct:] spelled out: the POSIX class *)
-                          else scan_bracket f (skipn (i + 2) s2) (expr1 ++ [d] ++ firstn (i + 2) s2)
+              | Some (name, rest) =>
+                  match class_of name class_names with
+                  | Some k => if 12 <=? k then None
+                              else if k =? 7 then scan_bracket f rest (expr ++ punct_list)
+                              else if k =? 1 then scan_bracket f rest (expr ++ digit_list)
+                              else scan_bracket f rest (expr1 ++ [ch_colon] ++ name ++ [ch_colon; ch_rb])
+                  | None => None
+                  end
+              end
+            else if (d =? ch_dot) || (d =? ch_eq) then
+              match find_close d s2 [] with
+              | None => None
+              | Some (body, rest) => scan_bracket f rest (expr1 ++ [d] ++ body ++ [d; ch_rb])
               end
             else scan_bracket f s1 expr1          (* the next character is examined normally *)
         | [] => scan_bracket f s1 expr1
@@ -145,7 +156,7 @@ Fixpoint scan_bracket (fuel : nat) (s : list nat) (expr : list nat) : option (li
 (* [s] is the pattern after "[": Some (expr, rest) when the text is a bracket expression Oniguruma accepts *)
 Inductive br_res := BrOk (expr rest : list nat) | BrNone | BrUnsupported.
 Definition extract_bracket (s : list nat) : br_res :=
-  let '(e0, s0) := match s with c :: s' => if c =? ch_bang then ([ch_lb; ch_caret], s') else ([ch_lb], s) | [] => ([ch_lb], s) end in
+  let '(e0, s0) := match s with c :: s' => if (c =? ch_bang) || (c =? ch_caret) then ([ch_lb; ch_caret], s') else ([ch_lb], s) | [] => ([ch_lb], s) end in
   let '(e1, s1) := match s0 with c :: s' => if c =? ch_rb then (e0 ++ [ch_rb], s') else (e0, s0) | [] => (e0, s0) end in
   match scan_bracket (S (length s1)) s1 e1 with
   | None => BrNone
